@@ -126,4 +126,19 @@ theorem value_perturb (τ : Rat) (n m : Nat) (a b : Mat)
     rw [this]
     grind
 
+theorem snap_within (τ : Rat) (hτ : 0 ≤ τ) (a : Mat) (out : List Entry) (i j : Nat) :
+    a i j - snap τ a out i j ≤ τ ∧ snap τ a out i j - a i j ≤ τ := by
+  unfold snap
+  split
+  · split
+    · assumption
+    · constructor <;> grind
+  · constructor <;> grind
+
+theorem snap_close (τ : Rat) (hτ : 0 ≤ τ) (n m : Nat) (a : Mat) (out : List Entry) :
+    closeWithin τ n m a (snap τ a out) = true := by
+  simp only [closeWithin, List.all_eq_true, List.mem_range, Bool.and_eq_true, decide_eq_true_eq]
+  intro i _ j _
+  exact snap_within τ hτ a out i j
+
 end SE.MatchCall
